@@ -167,6 +167,14 @@ Section store.
         end
     end.
 
+  (* EnfoldCache.find_for_inquiry: the candidates of the in-memory cache store (all it holds), or - when that is
+     empty - what the backend offers.  `bfind` = the backend's own candidate search (any pre-filter it applies). *)
+  Definition enfold_find (bfind : smap -> smap) (st : enfold) : smap :=
+    match e_cache st with
+    | [] => bfind (e_backend st)
+    | c => c
+    end.
+
   (* EnfoldCache.populate: for p in storage.retrieve_all(step): cache.add(p) *)
   Definition populate (oc : order_kind) (st : enfold) (batch : Z) : enfold :=
     match retrieve_all (e_backend st) batch with
